@@ -97,6 +97,7 @@ CASES = [
     ("reshape_unaligned3", "def f(a, b):\n    return a.reshape(3, 4)", (2, 2, 3), (1,)),
     ("linalg_inv_batch", "def f(a, b):\n    m = torch.tensor([[2.0, 1.0], [1.0, 1.0]]) + torch.eye(2) * (a * a)[:, None, None]\n    return torch.matmul(torch.linalg.inv(m), b.unsqueeze(-1)).squeeze(-1)", (3,), (3, 2)),
     ("inplace_unary", "def f(a, b):\n    c = a.clone()\n    c.abs_()\n    c.add_(1).reciprocal_()\n    d = b.clone()\n    d.view(-1).neg_()\n    d.clamp_(min=-1, max=1)\n    return c + d.sum()", (3, 2), (2, 2)),
+    ("mask_count_assign", "def f(a, b):\n    c = a.clone()\n    m = c[:, 0] > 0\n    k = int(m.sum())\n    c[m, :] = b[:k, :]\n    return c", (5, 2), (5, 2)),
     ("alias_flatten", "def f(a, b):\n    c = a.clone()\n    c.flatten()[2] = -4.0\n    return c", (2, 2), (1,)),
     ("linalg_inv", "def f(a, b):\n    m = torch.tensor([[2.0, 1.0], [1.0, 1.0]]) + torch.eye(2) * a[0] * a[0]\n    return torch.matmul(torch.linalg.inv(m), b)", (1,), (2, 1)),
     ("flip", "def f(a, b):\n    return torch.flip(a, [0])", (4, 2), (1,)),
@@ -218,9 +219,10 @@ def tpv_run(name, src, a, b):
     core.set_ctx(ctx)
     v = payload.val
     model = None
-    if any(d.concrete() is None for d in v.shape):
-        # data-dependent size (torch.where / boolean mask): instantiate the selector axioms on the whole
-        # concrete domain, take a model, and require it to be the ONLY model of the result size
+    data_dependent = any(d.concrete() is None for d in v.shape)
+    if data_dependent or ctx.ghost.get("selectors"):
+        # data-dependent size or values reached through a selection (torch.where / boolean mask): instantiate the
+        # selector axioms on the whole concrete domain, take a model, and require it to be the ONLY model
         for sel in ctx.ghost.get("selectors", []):
             tot = 1
             for d in sel.src_dims:
@@ -240,9 +242,10 @@ def tpv_run(name, src, a, b):
             return {"error": "selector axioms inconsistent on concrete input"}
         model = s.model()
         sizes = [model.eval(d.size_term(), model_completion=True) for d in v.shape]
-        s.add(z3.Or([d.size_term() != sz for d, sz in zip(v.shape, sizes) if d.concrete() is None]))
-        if s.check() != z3.unsat:
-            return {"error": "result size not determined by the selector axioms"}
+        if data_dependent:
+            s.add(z3.Or([d.size_term() != sz for d, sz in zip(v.shape, sizes) if d.concrete() is None]))
+            if s.check() != z3.unsat:
+                return {"error": "result size not determined by the selector axioms"}
         shape = [sz.as_long() for sz in sizes]
         import itertools
         idxs = [[(i,) for i in range(n)] for n in shape]
